@@ -38,7 +38,7 @@ SHARDS = {'quick': 16, 'thorough': 16}
 CASES = {'quick': 150, 'thorough': 5000}
 ESC = {1: b'%/@', 2: b'%/C', 3: b'%/E'}
 
-PROBE = st.fixed_dictionaries({'probe': st.just(True), 'joliet': st.sampled_from([1, 2, 3]), 'units': st.sampled_from([58, 62, 63, 63, 64, 64, 64, 65, 65, 66, 70]), 'alpha': st.integers(0, 3),
+PROBE = st.fixed_dictionaries({'probe': st.just(True), 'joliet': st.sampled_from([1, 2, 3]), 'units': st.sampled_from([58, 62, 63, 63, 64, 64, 64, 65, 65, 66, 70]), 'alpha': st.sampled_from([0, 1, 2, 2, 2, 3]),
                                'dir': st.booleans(), 'level': st.sampled_from([1, 3, 4])})
 
 
@@ -46,7 +46,7 @@ def strategy(tier):
     cfg = gen.cfg_st(joliet=st.sampled_from([1, 2, 3, 3]))
     w = {'mixed': 4, 'growshrink': 3, 'deep': 1, 'links': 3, 'boot': 1, 'hybrid': 0}
     progs = st.one_of(gen.mixed(True, cfg), gen.growshrink(cfg, True), gen.links(cfg, True), gen.mixed(False, cfg, 8, 40), gen.boot(cfg), gen.deep(cfg))
-    return st.tuples(st.one_of(progs, progs, progs, PROBE), st.none())
+    return st.tuples(st.one_of(progs, progs, PROBE), st.none())
 
 
 def probe_name(units, alpha):
